@@ -226,6 +226,11 @@ func init() {
 		// a well-formed address the bank refuses to credit (a module account): the claim cannot pay the recipient
 		return DepositValue([]byte{13, 1}, authtypes.NewModuleAddress([]string{"fee_collector", "bonded_tokens_pool", "bridge", "distribution"}[g.r.Pick(4)]).String(), e18(5), e18(1))
 	})
+	fragments["depositWrap64"] = hostileDeposit(14, func(g *Gen) string {
+		// amount / 10^12 = 2^64 + 5: does not fit 64 bits (nothing but that amount, or nothing at all, may be minted)
+		amt := new(big.Int).Add(new(big.Int).Lsh(big.NewInt(1), 64), big.NewInt(5))
+		return DepositValue([]byte{14, 1}, g.c.W.Users[2].Bech(), amt.Mul(amt, big.NewInt(1_000_000_000_000)), big.NewInt(0))
+	})
 	fragments["depositZero"] = hostileDeposit(12, func(g *Gen) string {
 		return DepositValue([]byte{12, 1}, g.c.W.Users[6].Bech(), big.NewInt(0), big.NewInt(0))
 	})
